@@ -17,6 +17,7 @@ CALL_FEATURES = dict(
     autocast=[False, True],
     shape=['b2n5', 'b1n1', 'b3n2'],
     ambient=['none', 'deterministic', 'default-bfloat16', 'default-float64'],
+    explicit_defaults=[False, True],
 )
 
 
@@ -82,6 +83,11 @@ def build_call(v, torch, dim, heads=1, K=6, nq=None, image=False, rng=None):
         kw['freeze_codebook'] = True
     if v['breakdown'] and nq is None and 'indices' not in kw:
         kw['return_loss_breakdown'] = True
+    if v.get('explicit_defaults'):
+        # the documented defaults passed EXPLICITLY (mask=None, indices=None, sample_codebook_temp=None, freeze_codebook=False): same call
+        for k_, d_ in (('mask', None), ('indices', None), ('sample_codebook_temp', None), ('freeze_codebook', False)):
+            if k_ not in kw and not (k_ == 'mask' and 'lens' in kw):
+                kw[k_] = d_
     if v['grad'] == 'enabled+requires_grad':
         x.requires_grad_(True)
 
